@@ -20,7 +20,9 @@ RULES = {
          r"src/bigint/convert\.rs::to_bigint#2$", r"src/biguint/convert\.rs::to_biguint#1$"],
  "C09": [r"src/biguint/iter\.rs::", r"src/biguint/convert\.rs::\w*bitwise_digits_le\b", r"src/bigint/convert\.rs::(from_signed_bytes\w*|to_signed_bytes\w*|twos_complement\w*|from_bytes\w*|to_bytes\w*)\b",
          r"src/big(u)?int\.rs::(new|from_slice|assign_from_slice|from_bytes_\w+|to_bytes_\w+|from_signed_bytes_\w+|to_signed_bytes_\w+|to_u32_digits|to_u64_digits|iter_u32_digits|iter_u64_digits|u32_chunk_to_u64|ensure_big_digit|biguint_from_vec)\b"],
- "C10": [r"src/big(u)?int/\w+\.rs::(%s)\b" % OPS, r"src/big(u)?int\.rs::(%s)\b" % OPS, r"src/macros\.rs::", r"::\$\w+"],
+ "C10": [r"src/big(u)?int/\w+\.rs::(%s)\b" % OPS, r"src/big(u)?int\.rs::(%s)\b" % OPS, r"src/macros\.rs::", r"::\$\w+",
+         # helpers that only some operand forms reach (in-place vs allocating paths): a slip there makes the forms disagree
+         r"src/big(u)?int/(addition|subtraction|multiplication|division|bits|shift|power)\.rs::"],
  "C11": [r"src/big(u)?int\.rs::(fixpoint|nth_root|sqrt|cbrt)\b"],
  "C12": [r"src/big(u)?int/power\.rs::(pow|powsign)\b", r"src/big(u)?int\.rs::pow\b"],
  "C13": [r"src/big(u)?int\.rs::(gcd|lcm|gcd_lcm|extended_gcd_lcm|divides|is_multiple_of|is_even|is_odd|next_multiple_of|prev_multiple_of|dec|inc|twos)\b"],
